@@ -82,6 +82,19 @@ check('C19', 'store', 'exploration', STORE_TECH,
       'attribute of the new instance equals the reference (typed default, then positional, then keyword); every defaulted id equals '
       'the next value of the reference generator and is never null; peeking never advances.', STORE_NOTE, 'DESIGN.md §4 C19')
 
+check('C03', 'delivery', 'exploration',
+      'deterministic simulation: seeded delivery plans (reordering, partitioning, routing through string / file object / file / '
+      'directory tree with seeded listing order / zip archive on a simulated disk with short reads), reference join by definition, '
+      'delivery-invariance over the recorded builds',
+      'Per run a seeded schema and population with null, duplicate, dangling and partially matching keys is rendered by an '
+      'independent writer and delivered 3-4 times under different plans; each build must link exactly the pairs the definition '
+      'gives (nested loops over the rows), read every referential attribute as a linked identifying value, and all builds must '
+      'agree; on populations for which the API documents no rejection the same rows created with MetaModel.new (referred rows '
+      'first) and with clone must give the same links.',
+      'Trusted: the independent renderer and join (engines/sqlgen.py), SimDisk. Instance order inside a pool follows statement '
+      'order and is not compared across plans. One known finding (new() across phrased associations) is listed in '
+      'known_findings.json and reported as KNOWN-FINDING.', 'DESIGN.md §4 C03')
+
 
 def build():
     sys.path.insert(0, HERE)
@@ -131,7 +144,7 @@ def build():
 
 if __name__ == '__main__':
     # pending properties are claimed in DESIGN.md but their check is not committed yet
-    for pid in ('C01', 'C03', 'C12', 'C13', 'C18'):
+    for pid in ('C01', 'C12', 'C13', 'C18'):
         PENDING[pid] = 'simulation target per DESIGN.md; check under construction and not claimed until it is committed'
     doc = build()
     with open(os.path.join(HERE, 'MANIFEST.json'), 'w') as f:
